@@ -150,14 +150,14 @@ def stream_gen(rng, tier):
         frames, ups, ids = build_frames(rng, ctr, k, delays=rng.choice(["none", "random", "reverse"]))
         up = rng.choice(["u", "u", "p"])
         for name, segs in segmentations(rng, frames, n_random=budget(tier, 2, 6)).items():
-            for l in ("tcp", "gnet"):
+            for l in ("tcp", "gnet") + (("dot",) if rep % 3 == 0 else ()):
                 add("x", cfg(up), l, "feed", segs, ups, k, "0", 0, ids)
     # (2) 1-octet segments, both readers, exact
     for rep in range(budget(tier, 2, 10)):
         k = rng.choice([1, 2, 3])
         frames, ups, ids = build_frames(rng, ctr, k)
         stream = b"".join(frames)
-        for l in ("tcp", "gnet"):
+        for l in ("tcp", "gnet", "dot"):
             add("o", cfg("u"), l, "feed", [stream[i:i + 1] for i in range(len(stream))], ups, k, "0", 0, ids)
     # (3) exhaustive small scope: 3 minimal frames (bare 12-octet headers), every segmentation with <= c cuts
     frames, ups, ids = build_frames(rng, ctr, 3, minimal=True)
@@ -193,16 +193,20 @@ def stream_gen(rng, tier):
     for rep in range(budget(tier, 3, 12)):
         k = rng.choice([5, 8, 12])
         frames, ups, ids = build_frames(rng, ctr, k, delays="reverse", all_forward=True)
-        for l in ("tcp", "gnet"):
+        for l in ("tcp", "gnet", "dot"):
             for via in ("sock", "feed"):
+                if l == "dot" and via == "sock":
+                    continue
                 add("r", cfg("u"), l, via, [b"".join(frames)], ups, k, "0", 0, ids)
     # (6) over the per-connection limit (M=2, slow upstream): k responses, the first 2 answered, k-2 REFUSED
     for rep in range(budget(tier, 1, 6)):
         k = rng.choice([3, 4, 6, 9])
         frames, ups, ids = build_frames(rng, ctr, k, delays="slow", all_forward=True)
         ids = [x.split(":")[0] + (":0" if i < 2 else ":5") for i, x in enumerate(ids)]
-        for l in ("tcp", "gnet"):
+        for l in ("tcp", "gnet", "dot"):
             for via in ("sock", "feed"):
+                if l == "dot" and via == "sock":
+                    continue
                 add("m", cfg("u", 2), l, via, [b"".join(frames)], ups, k, "0", 0, ids, burst=1, rc5=k - 2)
     # (7) the counter recovers: a burst over the limit, then (after its responses are back) a burst within the limit
     for rep in range(budget(tier, 1, 4)):
@@ -240,8 +244,10 @@ def garbage_gen(rng, tier):
         valid = b"".join(frames)
         tail = b"".join(build_frames(rng, ctr, 1)[0]) if rng.random() < 0.5 else b""
         kind = rep % 5
-        for l in ("tcp", "gnet"):
+        for l in ("tcp", "gnet", "dot"):
             for via in ("feed", "sock"):
+                if l == "dot" and (via == "sock" or rep % 2):
+                    continue
                 gap = 2 if via == "sock" else 0
                 if kind == 0:       # undecodable body, then maybe a valid frame that must not be answered
                     s = valid + rng.choice([short_bad, trunc_q])() + tail
@@ -392,7 +398,8 @@ PROPS["C13"] = dict(
          "per segment, every prefix split, 1-octet prefixes, cuts inside bodies, a body tail together with the next prefix "
          "octet, random cuts, 1-octet segments, every segmentation with <=2 (thorough: <=3) cuts of three minimal frames). "
          "via=feed: exact segmentation through the real gnetServer.OnTraffic on a fake gnet.Conn (connCtx compared with the "
-         "model after every read event) and the real tcpServer.handleConn over net.Pipe; via=sock: the real tcp and gnet "
+         "model after every read event) and the real tcpServer.handleConn over net.Pipe, plain and as a DoT server (crypto/tls client, "
+         "one record per segment); via=sock: the real tcp and gnet "
          "listeners over loopback. Observed: the octets read back, parsed as frames; the multiset of response bodies "
          "(byte-exact against the router model), ids/rcodes, open/closed; over-limit cases use max_concurrent_queries=2 and a "
          "500 ms upstream. streamgarbage: undecodable frames, frames longer than sent, zero-length frames, arbitrary octets, "
@@ -410,6 +417,7 @@ PROPS["C13"] = dict(
                "segmentation; C13_contiguous for every completion order at the granularity 'one Write call = one atomic "
                "action' (atomicity of net.Conn.Write / tls.Conn.Write / gnet AsyncWrite is assumed and exercised); "
                "C13_over_limit for every arrival/completion history. DoT shares handleConn with TCP (tls.Conn under the "
-               "same reader and writers) and is not exercised separately. Zero-length frames are outside the property "
+               "same reader and writers); it is exercised through handleConn over net.Pipe with a temporary certificate, "
+               "not through a listening socket. Zero-length frames are outside the property "
                "(C13_zero_len_note).",
 )
